@@ -104,6 +104,28 @@ TRUSTED_BASE = [
     "is a list or falsy (a str / dict there is iterated by CPython and by the translation, the model takes no roles: outside `roles: list[str]`) "
     "and for raw decisions that are dicts (what evaluate / decide / the cache return); by hand remain _decide_async, the cache protocol around "
     "it (C08), the contextvars, whether and how often the sinks are called, the sync wrappers",
+    "for the translated ASGI MIDDLEWARE RbacxMiddleware.__call__ / _send_json (C20; harness/pytolean_trace.py on top of pytolean_async.py and "
+    "pytolean.py, lean/Rbacx/Model/PyTrace.lean, validated against the real middleware on every C20 run by Run/SrcEvalAsgi.lean: raw "
+    "scope/receive/send, a stub builder / engine that behave as the outcomes say, full action lists compared) the trusted readings are: "
+    "EFFECT TRACES — a translated method is the list of its effects in program order plus how the call ended (returned / raised cls): "
+    "`scope['rbacx_guard'] = self.guard` on the parameter is the effect setItem (and rebinds the method's own view of scope), `await send(msg)` "
+    "on a parameter is the effect send, `await self.app(scope, receive, send)` the effect call with the caller's objects passed on by name; the "
+    "awaited send channel and the downstream application are TAKEN TO RETURN (an exception of theirs would propagate unchanged with nothing "
+    "after it executed: not represented; BaseException / cancellation neither); `await self._send_json(…)` is the callee's trace spliced in; "
+    "OUTCOME PARAMETERS — self.build_env(scope) and await self.guard.evaluate_async(…) are not translated but function parameters giving "
+    ".ok v = returned v / .error cls = raised class cls (which then leaves __call__, effects so far kept), the 4-way unpacking belongs to the "
+    "raising point (TypeError for a non-iterable result, ValueError for another number of items), so the equality speaks about the source with "
+    "the model's builder / engine outcome in the calls' places (hypotheses BuilderAgrees / EngineAgrees) and what the engine answers is C01's "
+    "business; CONSTANTS EVALUATED AT TRANSLATION TIME — json.dumps of a LITERAL display (the 403 body; a parameter whose only use is "
+    "json.dumps(p) is handed over as that JSON text, the call site must give a literal) is computed by CPython's own json.dumps when the "
+    "translator runs and emitted as a string constant, anything non-literal is rejected; BYTES / ENCODE — a bytes value is represented by the "
+    "text it decodes to (UTF-8), b'…' literals must be valid UTF-8, str(…).encode('utf-8') / json.dumps(…).encode('utf-8') / "
+    "str(len(…)).encode('ascii') are the identity on that abstract text (a Lean String has no lone surrogates, on which CPython raises "
+    "UnicodeEncodeError: not representable), len of a bytes value is the UTF-8 byte count, a header is a 2-tuple of such values, str(x) is the "
+    "oracle's; headers.append / headers.extend on a local bound to a fresh list display and not used as a bare value since are rebinding; an "
+    "`if` whose branches only assign / append is a conditional VALUE of the variables it rebinds; scope.get on a non-dict is None (CPython "
+    "raises: ASGI scopes are dicts); self.<attr> reads are inputs, Decision is the record of its declared fields; by hand remain __init__ "
+    "and what the downstream application does",
 ]
 
 
